@@ -252,8 +252,23 @@ class Check:
         if self.tier == "thorough":
             ex.ctx.portfolio = ((1, 10000), (7, 20000), (23, 40000))
             ex.ctx.portfolio_cvc5 = True
+        budget = float(os.environ.get("VERIF_BUDGET_S", "900" if self.tier == "quick" else "5400"))
+        ex.deadline = self.t0 + budget
+        if getattr(self, "violation_cap", None):
+            ex.deadline = min(ex.deadline, self.violation_cap)
+        if getattr(self, "step_deadline", None):
+            ex.deadline = min(ex.deadline, self.step_deadline)
         self.executors.append(ex)
         return ex
+
+    def cap_after_violation(self):
+        """a violation has been reproduced against the real code, so the verdict of this run is fixed: the rest of the
+        exploration (which can only add further counterexamples) is capped"""
+        if getattr(self, "violation_cap", None) is None:
+            self.violation_cap = time.time() + float(os.environ.get("VERIF_AFTER_VIOLATION_S", "60"))
+            for ex in self.executors:
+                if ex.deadline:
+                    ex.deadline = min(ex.deadline, self.violation_cap)
 
     def over_budget(self):
         budget = float(os.environ.get("VERIF_BUDGET_S", "900" if self.tier == "quick" else "5400"))
@@ -267,7 +282,23 @@ class Check:
             self.partial = True
             return None
         t = time.time()
-        r = fn(*a, **kw)
+        if getattr(self, "violation_cap", None) and t > self.violation_cap:
+            self.notes.append("unit %s not explored: a violation was already reproduced and the time cap after it was reached" % label)
+            return None
+        # no single unit may use more than a third of the time budget: a unit that explodes leaves time for the others
+        budget = float(os.environ.get("VERIF_BUDGET_S", "900" if self.tier == "quick" else "5400"))
+        self.step_deadline = t + (getattr(self, "step_budget_s", None) or budget / 3.0)
+        try:
+            r = fn(*a, **kw)
+        except (Unsupported, Inconclusive) as e:
+            # one unit that cannot be encoded or decided makes the run inconclusive, but the other units are still explored:
+            # a violation reproduced there is reported
+            self.inconclusive.append("%s in unit %s: %s" % (type(e).__name__, label, e))
+            print("INCONCLUSIVE: %s in unit %s: %s" % (type(e).__name__, label, e))
+            if os.environ.get("VERIF_DEBUG"):
+                import traceback
+                traceback.print_exc(limit=10)
+            r = None
         self.unit_times = getattr(self, "unit_times", {})
         self.unit_times[label] = round(time.time() - t, 2)
         if os.environ.get("VERIF_DEBUG"):
@@ -386,6 +417,7 @@ class Check:
                    "description": describe(vals) if describe else "", "native_commands": getattr(self, "last_native", [])}
             if ok:
                 self.violations.append(rec)
+                self.cap_after_violation()
                 verdict = "VIOLATED"
             else:
                 self.inconclusive.append("counterexample of %s/%s does not reproduce natively (encoder or oracle wrong?): %s -> %s" % (unit, name, vals, detail))
@@ -410,10 +442,27 @@ class Check:
                     if ok:
                         self.violations.append({"unit": unit, "obligation": name, "inputs": found, "replay": detail, "reproduced": True,
                                                 "description": "found after the full-width query timed out, inputs restricted below 2^%d" % k})
+                        self.cap_after_violation()
                         verdict = "VIOLATED"
                     break
             if verdict == "unknown":
-                self.inconclusive.append("solver unknown on %s/%s: %s" % (unit, name, ctx.z.reason_unknown()))
+                # last resort: the same query re-encoded over 64-bit vectors (one SAT problem instead of NIA + FP); a model is
+                # confirmed in the integer encoding and replayed, anything else leaves the obligation undecided
+                from . import bvfallback
+                t_bv = time.time()
+                m, how = bvfallback.find_counterexample(list(ctx.z.assertions()), inputs, timeout_ms=60000 if self.tier == "quick" else 240000, seed=self.seed)
+                self.solver_s += time.time() - t_bv
+                self.bv_fallbacks = getattr(self, "bv_fallbacks", 0) + 1
+                if m is not None:
+                    found = {kk: model_value(m, vv) for kk, vv in inputs.items()}
+                    ok, detail = replay(found)
+                    if ok:
+                        self.violations.append({"unit": unit, "obligation": name, "inputs": found, "replay": detail, "reproduced": True,
+                                                "description": how, "native_commands": getattr(self, "last_native", [])})
+                        self.cap_after_violation()
+                        verdict = "VIOLATED"
+            if verdict == "unknown":
+                self.inconclusive.append("solver unknown on %s/%s: %s; %s" % (unit, name, ctx.z.reason_unknown(), how))
         ctx.pop()
         # (B) inside each known region: is the finding still there?
         for f, k in zip(regs, reg_preds):
